@@ -19,7 +19,8 @@ SCALE = ('16-120 notes (long); ladder 33..1025 notes under one pedal note held f
 ASSUMPTIONS = ["mido's byte-level reading/writing is trusted", "channels are not compared (the writer emits channel 0)",
                "total duration / trailing rests are not part of the statement"]
 REQUIRED_FLAGS = ["after_history", "leading_rest", "simultaneous_events", "abutting_repeat", "signature_after_tick_0", "all_fifteen_keys",
-                  "program_change", "control_change", "three_sequences", "default_signature_inserted", "signature_on_non_first_sequence"]
+                  "program_change", "control_change", "three_sequences", "default_signature_inserted", "signature_on_non_first_sequence",
+                  "settings_file_activated_after_import"]
 
 KEYS = ["C", "G", "D", "A", "E", "B", "F#", "C#", "F", "Bb", "Eb", "Ab", "Db", "Gb", "Cb"]
 TS = [(4, 4), (3, 4), (6, 8), (2, 2), (5, 8)]
@@ -65,6 +66,7 @@ def units(ctx):
         yield ("triples", i)
     yield from hist.hist_units()
     yield ("long", 0)
+    yield ("reload", 0)
     for k in range(len(lib.LADDER)):
         yield ("scale", k)
     if ctx["tier"] != "quick":
@@ -86,6 +88,13 @@ def gen_cases(unit, ctx):
             yield {"seed": unit[1], "build": unit[2], "hist": h}
         return
     kind, i = unit
+    if kind == "reload":
+        p = ctx["p"] if ctx["p"] <= 100 else 100
+        for ppqn in (48, 12, 480):
+            yield {"seqs": [S([(0, 24, p, 0, 80), (36, 12, p + 2, 0, 64)], [("ts", 0, 3, 4), ("ks", 0, "D"), ("ts", 72, 4, 4)]),
+                            S([(6, 6, p + 5, 0, 50)], [("ks", 72, "G")])], "reload_ppqn": ppqn}
+            yield {"seqs": [S([(0, 10, p, 0, 1)], [])], "reload_ppqn": ppqn}
+        return
     if kind == "long":
         p = ctx["p"] if ctx["p"] <= 100 else 100
         for n in (16, 48, 120):
@@ -192,6 +201,28 @@ def in_force(sig, ticks, default_ts=(4, 4)):
 
 
 def check_case(case, ctx):
+    if case.get("reload_ppqn"):
+        # the application activates its own settings file (another resolution) AFTER the library has been imported; the
+        # default file is activated again afterwards
+        import json
+        from pathlib import Path
+        from scoda.settings import settings
+        default_path = Path(settings.__file__).parent.parent.joinpath("config/default_settings.json")
+        custom = json.load(open(default_path))
+        custom["general_settings"]["ppqn"] = case["reload_ppqn"]
+        custom_path = os.path.join(ctx["tmpdir"], f"settings_{os.getpid()}.json")
+        json.dump(custom, open(custom_path, "w"))
+        settings.load_from_file(Path(custom_path))
+        try:
+            R = _check_case({k: v for k, v in case.items() if k != "reload_ppqn"}, ctx)
+            R.flags.append("settings_file_activated_after_import")
+            return R
+        finally:
+            settings.load_from_file()
+    return _check_case(case, ctx)
+
+
+def _check_case(case, ctx):
     R = core.Res()
     if "hist" in case:
         # a live sequence with a history (earlier conversions to a MIDI track, in-place edits, aliased messages, ...)
